@@ -24,7 +24,7 @@ RULE = (
     "full text of header and source from cpp.compile_ekf and cpp.compile, and the Python layout (Model.arglist, names of "
     "State/Control/Calibration/Covariance/each Reading, calibration vector, process-noise matrix). Oracle: exactly one "
     "text per definition and output kind, one layout per definition; in every process each definition is generated again with "
-    "time.time / time.monotonic / time.perf_counter moved forward by 1 hour and by 1e9 s and must produce the same text; the processes walk the job list in three different orders (forwards, backwards, rotated), so the "
+    "time.time / time.monotonic / time.perf_counter moved forward by 1 hour and by 1e9 s and must produce the same text, and three definitions are generated once more over the existing output files of a look-alike definition (same header, other source); the processes walk the job list in three different orders (forwards, backwards, rotated), so the "
     "cross-process comparison also decides that a text does not depend on what was generated before it. One evaluation = one generation. distinct = "
     "(definition, variant, hash seed); non-trivial = variant differs from the base declaration order or hash seed != 0."
 )
@@ -159,15 +159,16 @@ def eval_case(case):
             fails.append({"key": f"generation-raises:def{di}", "what": f"hashseed {case['hashseed']} variant {vid}: {rec['error']}"})
             continue
         n += 1
-        for tag in ("clock+1h", "clock+30y"):
+        for tag in ("clock+1h", "clock+30y", "reused-paths"):
             for kind in ("ekf_header", "ekf_source"):
                 if f"{kind}@{tag}" in rec:
                     n += 1
                     if rec[f"{kind}@{tag}"] != rec[kind]:
                         diff = "\n".join(list(difflib.unified_diff(rec[kind].splitlines(), rec[f"{kind}@{tag}"].splitlines(), "start-up", tag,
                                                                    lineterm="", n=1))[:30])
-                        fails.append({"key": f"clock-changes-output:{kind}", "what": f"hashseed {case['hashseed']} variant {vid}: {kind} "
-                                      f"generated with the process clocks moved by {tag[6:]} differs from the one generated at start-up",
+                        fails.append({"key": f"{'clock' if tag.startswith('clock') else 'existing-files'}-changes-output:{kind}", "what": f"hashseed {case['hashseed']} variant {vid}: {kind} "
+                                      + (f"generated with the process clocks moved by {tag[6:]} differs from the one generated at start-up" if tag.startswith("clock")
+                                         else "generated into a directory that already held the output of a look-alike definition differs from the one generated into an empty directory"),
                                       "detail": diff})
         for k in KINDS:
             h = hashlib.sha256(rec[k].encode()).hexdigest()[:16]
